@@ -91,7 +91,7 @@ def gen_job(rng, kind=None):
 def gen_cases(ctx):
     for inp in ctx.corpus():
         yield inp
-    n = ctx.n(260, 3000)
+    n = ctx.n(260, 2000)
     for i in range(n):
         rng = ctx.rng("sched", i)
         nj = rng.randint(2, 4)
